@@ -11,40 +11,57 @@ import (
 	"kverif/internal/load"
 )
 
-// fullScan: addr is &s[i] inside a loop that visits every position of s in ascending order exactly once:
-// "for i := 0; i < len(s); i++" or "for i := range s" (rotated range-index form). It returns the value that plays the
-// role of the loop variable in the body and the loop header.
+// sameSource: both values come from the same single origin once local cells (and captured ones) are looked through.
+func sameSource(a, b ssa.Value) bool {
+	if sameVal(a, b) {
+		return true
+	}
+	sa, sb := cellSources(a), cellSources(b)
+	return len(sa) == 1 && len(sb) == 1 && (sa[0] == sb[0] || sameVal(sa[0], sb[0]))
+}
+
+// fullScan: addr is &s[i] inside a loop that visits every position of s exactly once: "for i := 0; i < len(s); i++",
+// "for i := range s" (rotated range-index form) or "for i := len(s)-1; i >= 0; i--". It returns the value that plays
+// the role of the loop variable in the body and the loop header.
 func fullScan(addr *ssa.IndexAddr) (idx ssa.Value, hdr *ssa.BasicBlock, ok bool) {
 	isLenOf := func(v ssa.Value) bool {
-		for _, s := range cellSources(v) {
+		srcs := cellSources(v)
+		for _, s := range srcs {
 			c, isCall := s.(*ssa.Call)
-			if !isCall || !an.IsBuiltinCall(c, "len") || !sameVal(c.Call.Args[0], addr.X) {
+			if !isCall || !an.IsBuiltinCall(c, "len") || !sameSource(c.Call.Args[0], addr.X) {
 				return false
 			}
 		}
-		return true
+		return len(srcs) > 0
 	}
-	condOK := func(h *ssa.BasicBlock, v ssa.Value) bool {
+	inBody := func(h *ssa.BasicBlock) bool {
+		return h.Succs[0] == addr.Block() || h.Succs[0].Dominates(addr.Block())
+	}
+	cond := func(h *ssa.BasicBlock) *ssa.BinOp {
 		if len(h.Instrs) == 0 {
-			return false
+			return nil
 		}
 		ifi, isIf := h.Instrs[len(h.Instrs)-1].(*ssa.If)
 		if !isIf {
-			return false
+			return nil
 		}
-		bo, isBo := ifi.Cond.(*ssa.BinOp)
-		if !isBo {
+		bo, _ := ifi.Cond.(*ssa.BinOp)
+		return bo
+	}
+	condUp := func(h *ssa.BasicBlock, v ssa.Value) bool {
+		bo := cond(h)
+		if bo == nil {
 			return false
 		}
 		// the body is the true successor of "v < len(s)"
 		if !(bo.Op == token.LSS && bo.X == v && isLenOf(bo.Y)) && !(bo.Op == token.GTR && bo.Y == v && isLenOf(bo.X)) {
 			return false
 		}
-		return h.Succs[0] == addr.Block() || h.Succs[0].Dominates(addr.Block())
+		return inBody(h)
 	}
-	step := func(v ssa.Value, phi *ssa.Phi) bool {
+	step := func(v ssa.Value, phi *ssa.Phi, op token.Token) bool {
 		bo, isBo := v.(*ssa.BinOp)
-		if !isBo || bo.Op != token.ADD || bo.X != ssa.Value(phi) {
+		if !isBo || bo.Op != op || bo.X != ssa.Value(phi) {
 			return false
 		}
 		k, isC := constIntOf(bo.Y)
@@ -53,13 +70,31 @@ func fullScan(addr *ssa.IndexAddr) (idx ssa.Value, hdr *ssa.BasicBlock, ok bool)
 	// plain form: the index is the phi
 	if phi, isPhi := addr.Index.(*ssa.Phi); isPhi && len(phi.Edges) == 2 {
 		init, next := phi.Edges[0], phi.Edges[1]
-		if k, isC := constIntOf(init); isC && k == 0 && step(next, phi) && condOK(phi.Block(), phi) {
+		if k, isC := constIntOf(init); isC && k == 0 && step(next, phi, token.ADD) && condUp(phi.Block(), phi) {
 			return phi, phi.Block(), true
+		}
+		// descending: i := len(s)-1; i >= 0; i--
+		if step(next, phi, token.SUB) {
+			okInit := false
+			if bo, isBo := init.(*ssa.BinOp); isBo && bo.Op == token.SUB && isLenOf(bo.X) {
+				if k, isC := constIntOf(bo.Y); isC && k == 1 {
+					okInit = true
+				}
+			}
+			okCond := false
+			if bo := cond(phi.Block()); bo != nil && bo.X == ssa.Value(phi) {
+				if k, isC := constIntOf(bo.Y); isC && ((bo.Op == token.GEQ && k == 0) || (bo.Op == token.GTR && k == -1)) {
+					okCond = true
+				}
+			}
+			if okInit && okCond && inBody(phi.Block()) {
+				return phi, phi.Block(), true
+			}
 		}
 	}
 	// range form: the index is phi+1, the phi starts at -1 and every back edge carries the index
 	if bo, isBo := addr.Index.(*ssa.BinOp); isBo {
-		if phi, isPhi := bo.X.(*ssa.Phi); isPhi && step(bo, phi) && len(phi.Edges) >= 2 {
+		if phi, isPhi := bo.X.(*ssa.Phi); isPhi && step(bo, phi, token.ADD) && len(phi.Edges) >= 2 {
 			k, isC := constIntOf(phi.Edges[0])
 			all := isC && k == -1
 			for _, e := range phi.Edges[1:] {
@@ -67,7 +102,7 @@ func fullScan(addr *ssa.IndexAddr) (idx ssa.Value, hdr *ssa.BasicBlock, ok bool)
 					all = false
 				}
 			}
-			if all && condOK(phi.Block(), bo) {
+			if all && condUp(phi.Block(), bo) {
 				return bo, phi.Block(), true
 			}
 		}
@@ -233,6 +268,94 @@ func c01walk(c *Ctx) {
 		}
 	}
 	r.Floor("FLOW", "recomputations of CalculateInfo.Request", nRecompute, 2)
+
+	// ---- the lock wrapper the per-quota discipline relies on
+	r.Rule("LOCK(wrapper): scopedLockForQuotaInfo takes the write lock of list[i] for a full scan of its slice argument with no early exit and returns a closure; that closure releases list[i] for a full scan of the same slice and takes no lock; every caller invokes the returned func exactly by a defer (so the locks are held to the caller's exit)")
+	if fn := c.Fn(quotaCorePkg, "GroupQuotaManager", "scopedLockForQuotaInfo"); fn != nil {
+		lockScan := func(f *ssa.Function, op string) (n int, ok bool, slice ssa.Value) {
+			ok = true
+			for _, cl := range an.Calls(f, false) {
+				cal := cl.Common().StaticCallee()
+				if cal == nil || cal.Pkg == nil || cal.Pkg.Pkg.Path() != "sync" {
+					continue
+				}
+				if cal.Name() != op {
+					if cal.Name() == "Lock" || cal.Name() == "RLock" || cal.Name() == "Unlock" || cal.Name() == "RUnlock" {
+						ok = false
+					}
+					continue
+				}
+				n++
+				fa, isFA := cl.Common().Args[0].(*ssa.FieldAddr)
+				if !isFA {
+					ok = false
+					continue
+				}
+				var ia *ssa.IndexAddr
+				for _, src := range cellSources(fa.X) {
+					if ld, isLd := src.(*ssa.UnOp); isLd && ld.Op == token.MUL {
+						ia, _ = ld.X.(*ssa.IndexAddr)
+					}
+				}
+				if ia == nil {
+					ok = false
+					continue
+				}
+				_, hdr, scan := fullScan(ia)
+				if !scan || !loopClosed(hdr) {
+					ok = false
+					continue
+				}
+				if srcs := cellSources(ia.X); len(srcs) == 1 {
+					slice = srcs[0]
+				} else {
+					ok = false
+				}
+			}
+			return
+		}
+		nL, okL, sliceL := lockScan(fn, "Lock")
+		var clo *ssa.Function
+		for _, alt := range an.ReturnAlts(fn) {
+			if mc, isMC := an.Origin(alt.Results[0]).(*ssa.MakeClosure); isMC {
+				if f, isF := mc.Fn.(*ssa.Function); isF && (clo == nil || clo == f) {
+					clo = f
+					continue
+				}
+			}
+			okL = false
+		}
+		nU, okU := 0, false
+		var sliceU ssa.Value
+		if clo != nil {
+			nU, okU, sliceU = lockScan(clo, "Unlock")
+		}
+		isParam := len(fn.Params) == 2 && sliceL == ssa.Value(fn.Params[1])
+		r.Check(nL == 1 && okL && clo != nil && nU == 1 && okU && isParam && sliceU == sliceL, "LOCK", fkey(fn)+"/wrapper", c.Pos(fn.Pos()), "locks every element of the argument, the returned func unlocks every element",
+			sprintf("the lock wrapper is broken: Lock sites=%d all in a full scan of the argument=%v (argument=%v), returns a closure=%v, Unlock sites in it=%d all in a full scan=%v of the same slice=%v", nL, okL, isParam, clo != nil, nU, okU, sliceU == sliceL))
+		nCall := 0
+		for _, f := range c.P.AllFuncs() {
+			for _, cl := range an.CallsTo(f, false, gp+"scopedLockForQuotaInfo") {
+				nCall++
+				v := cl.Value()
+				deferred := 0
+				other := false
+				if v != nil && v.Referrers() != nil {
+					for _, ref := range *v.Referrers() {
+						if d, isD := ref.(*ssa.Defer); isD && d.Call.Value == ssa.Value(v) {
+							deferred++
+						} else {
+							other = true
+						}
+					}
+				}
+				_, isCall := cl.(*ssa.Call)
+				r.Check(isCall && deferred == 1 && !other, "LOCK", sprintf("%s/unlock-deferred", fkey(f)), c.InstrPos(cl), "the returned unlock is deferred",
+					sprintf("the func returned by scopedLockForQuotaInfo is not simply deferred (is a plain call=%v, deferred %d times, other uses=%v): the locks are taken at the wrong time or never released", isCall, deferred, other))
+			}
+		}
+		r.Floor("LOCK", "callers of scopedLockForQuotaInfo", nCall, 5)
+	}
 
 	// ---- the root's figures are re-summed from the two special groups
 	r.Rule("TABLE(root reset): in resetRootQuotaUsedAndRequest the value stored into each figure F of the root derives from Get<F>() results only (never from a getter of another figure), from as many getter calls as every other figure (one per special group), and nothing else")
